@@ -146,6 +146,7 @@ RETRY_RAND:
         {
             psTraceCrypto("ECC sanity exceeded. Verify PRNG output.\n");
             err = PS_PLATFORM_FAIL; /* possible problem with prng */
+            pstm_clear(&order);
             goto ERR_BUF;
         }
         goto RETRY_RAND;
